@@ -206,23 +206,9 @@ func c16FindColor(c *Ctx, p *Prog) {
 		walk(r.Results[0])
 	}
 	c.Check(okRet, "C16-R3", "FindColor:returns-member", p.pos(fn.Pos()), "values reaching the return: ColorDefault or a range element of the palette"+detail)
-	// the update test: (match == ColorDefault) || (nd < dist)
-	at := atomsOf(fn)
-	strict, first := false, false
-	for a := range at {
-		if (strings.Contains(a, "nd") || strings.Contains(a, "DistanceCIE76")) && strings.Contains(a, "dist") {
-			// canonical orientation: "dist > nd" or "nd < dist"
-			if strings.Contains(a, " < ") || strings.Contains(a, " > ") {
-				strict = true
-			}
-			if strings.Contains(a, "<=") || strings.Contains(a, ">=") {
-				strict = false
-			}
-		}
-		if strings.Contains(a, "match") && strings.Contains(a, fmt.Sprint(def)) {
-			first = true
-		}
-	}
+	// the update test: the best-so-far is kept exactly when it is a member already (not the
+	// ColorDefault placeholder) and the new distance is not strictly smaller
+	strict, first, at := c16UpdateTest(fn, def)
 	// the scan looks at every member: the only way out of the loop over the palette is its exhaustion
 	{
 		loops := loopsOf(fn)
@@ -248,7 +234,7 @@ func c16FindColor(c *Ctx, p *Prog) {
 		}
 		c.Check(nLoops == 1 && early == "", "C16-R3", "FindColor:scans-whole-palette", p.pos(fn.Pos()), "no break or return inside the loop over the palette (a closer member may come later) "+early)
 	}
-	c.Check(strict && first, "C16-R3", "FindColor:strict-improvement", p.pos(fn.Pos()), fmt.Sprintf("update on strictly smaller distance: %v; first element accepted through the match == ColorDefault escape: %v; conditions %v", strict, first, sortedKeys(at)))
+	c.Check(strict && first, "C16-R3", "FindColor:strict-improvement", p.pos(fn.Pos()), fmt.Sprintf("update on strictly smaller distance: %v; first element accepted through the match == ColorDefault escape: %v; %s", strict, first, at))
 }
 
 // c16Palette: PaletteColor(i) is Color(i)|ColorValid for every index of the palette; a range
@@ -340,6 +326,7 @@ func c16GetColor(c *Ctx, p *Prog) {
 		return
 	}
 	ok, detail := false, "no hexadecimal parse found"
+	okLen := false // the parse is reached only by names of the form '#' + six characters
 	eachInstr(fn, func(in ssa.Instruction) {
 		cc := callCommon(in)
 		if cc == nil {
@@ -349,18 +336,16 @@ func c16GetColor(c *Ctx, p *Prog) {
 		case "strconv.ParseUint":
 			if b, isB := constInt(cc.Args[1]); isB && b == 16 {
 				ok, detail = true, "strconv.ParseUint(_, 16, _)"
+				for _, g := range guardsAt(in.Block()) {
+					if g.L == "len(name)" && g.Op == "==" && g.R == "7" {
+						okLen = true
+					}
+				}
 			}
 		case "strconv.ParseInt", "strconv.Atoi":
 			ok, detail = false, calleeName(cc)+" accepts a leading sign: \"#-00001\" becomes a colour"
 		}
 	})
-	// and it is applied only to names of the form '#' + six characters
-	okLen := false
-	for a := range atomsOf(fn) {
-		if strings.Contains(a, "len(name) == 7") {
-			okLen = true
-		}
-	}
 	c.Check(ok && okLen, "C16-R4", "GetColor:hex-unsigned", p.pos(fn.Pos()), "hex colours are parsed unsigned from exactly '#' plus six characters: "+detail)
 }
 
@@ -732,4 +717,189 @@ func c16Text(c *Ctx, p *Prog) {
 		}
 	}
 	c.Check(okParse, "C16-R6", "GetColor:reads-CSS-form", p.pos(gc.Pos()), pd)
+}
+
+// phiLeaf is one way a value reaches a phi: through the edge pred→join (join being the phi's block
+// or the block of a nested phi).
+type phiLeaf struct {
+	pred, join *ssa.BasicBlock
+	v          ssa.Value
+}
+
+func phiLeaves(phi *ssa.Phi, within map[*ssa.BasicBlock]bool) []phiLeaf {
+	var out []phiLeaf
+	seen := map[*ssa.Phi]bool{}
+	var walk func(x *ssa.Phi)
+	walk = func(x *ssa.Phi) {
+		if seen[x] {
+			return
+		}
+		seen[x] = true
+		for i, e := range x.Edges {
+			if in, ok := e.(*ssa.Phi); ok && in != phi && within[in.Block()] && phiMentions(in, phi, map[*ssa.Phi]bool{}) {
+				walk(in) // a merge of "kept" and "replaced": look at its edges
+				continue
+			}
+			out = append(out, phiLeaf{x.Block().Preds[i], x.Block(), e})
+		}
+	}
+	walk(phi)
+	return out
+}
+
+func phiMentions(x, target *ssa.Phi, seen map[*ssa.Phi]bool) bool {
+	if seen[x] {
+		return false
+	}
+	seen[x] = true
+	for _, e := range x.Edges {
+		if e == ssa.Value(target) {
+			return true
+		}
+		if in, ok := e.(*ssa.Phi); ok && phiMentions(in, target, seen) {
+			return true
+		}
+	}
+	return false
+}
+
+// rawGuardsOnEdge: the branch conditions known when control flows from pred to succ.
+func rawGuardsOnEdge(pred, succ *ssa.BasicBlock) []rawGuard {
+	out := append([]rawGuard{}, rawGuardsAt(pred)...)
+	if len(pred.Instrs) > 0 {
+		if iff, ok := pred.Instrs[len(pred.Instrs)-1].(*ssa.If); ok && pred.Succs[0] != pred.Succs[1] {
+			for idx := 0; idx < 2; idx++ {
+				if pred.Succs[idx] == succ {
+					out = append(out, expandCond(iff.Cond, idx == 0, 0)...)
+				}
+			}
+		}
+	}
+	return out
+}
+
+// c16UpdateTest decides the best-so-far update of FindColor on values, not names: M is the
+// loop-carried colour that is returned, D the loop-carried distance, nd what D is replaced by.  On
+// every edge that carries M around the loop unchanged it must be known that M is not the ColorDefault
+// placeholder (the first member is always taken) and that nd is not strictly below D (`nd >= D`,
+// `!(nd < D)`: a tie keeps the earlier member); M and D are kept on the same edges.
+func c16UpdateTest(fn *ssa.Function, def int64) (strict, first bool, detail string) {
+	loops := loopsOf(fn)
+	for h, body := range loops {
+		var M, D *ssa.Phi
+		for _, in := range h.Instrs {
+			phi, ok := in.(*ssa.Phi)
+			if !ok {
+				continue
+			}
+			if typeName(phi.Type()) == "tcell.Color" || strings.HasSuffix(phi.Type().String(), ".Color") {
+				if bt, isB := phi.Type().Underlying().(*types.Basic); isB && bt.Info()&types.IsInteger != 0 {
+					M = phi
+				}
+			}
+			if bt, isB := phi.Type().Underlying().(*types.Basic); isB && bt.Info()&types.IsFloat != 0 {
+				D = phi
+			}
+		}
+		if M == nil || D == nil {
+			continue
+		}
+		within := map[*ssa.BasicBlock]bool{h: true}
+		for b := range body {
+			within[b] = true
+		}
+		var nd ssa.Value
+		keepD := map[string]bool{}
+		for _, l := range phiLeaves(D, within) {
+			if !within[l.pred] {
+				continue
+			}
+			if l.v == ssa.Value(D) {
+				keepD[fmt.Sprintf("%d>%d", l.pred.Index, l.join.Index)] = true
+			} else {
+				nd = l.v
+			}
+		}
+		keeps, nKeep := 0, 0
+		strict, first = true, true
+		for _, l := range phiLeaves(M, within) {
+			if !within[l.pred] || l.v != ssa.Value(M) {
+				continue
+			}
+			nKeep++
+			if keepD[fmt.Sprintf("%d>%d", l.pred.Index, l.join.Index)] {
+				keeps++
+			}
+			notDef, notBelow, other := false, false, ""
+			for _, g := range rawGuardsOnEdge(l.pred, l.join) {
+				bo, ok := g.Cond.(*ssa.BinOp)
+				if !ok {
+					continue
+				}
+				x, y, op := bo.X, bo.Y, bo.Op
+				if y == ssa.Value(M) || y == nd {
+					x, y, op = y, x, swapTok(op)
+				}
+				if !g.Positive {
+					op = negTok(op)
+				}
+				switch {
+				case x == ssa.Value(M):
+					if k, isK := constInt(y); isK && k == def && op == token.NEQ {
+						notDef = true
+					}
+				case x == nd && y == ssa.Value(D):
+					if op == token.GEQ {
+						notBelow = true
+					} else {
+						other += "kept when nd " + op.String() + " dist; "
+					}
+				}
+			}
+			if !notDef {
+				first = false
+			}
+			if !notBelow {
+				strict = false
+			}
+			detail += fmt.Sprintf("keep edge %d→%d: placeholder excluded %v, not-below %v %s; ", l.pred.Index, l.join.Index, notDef, notBelow, other)
+		}
+		if nKeep == 0 || keeps != nKeep || nd == nil {
+			return false, false, detail + fmt.Sprintf("%d keep edge(s) of the colour, %d of them keep the distance too", nKeep, keeps)
+		}
+		return strict, first, detail
+	}
+	return false, false, "no loop carrying a colour and a distance"
+}
+
+func swapTok(op token.Token) token.Token {
+	switch op {
+	case token.LSS:
+		return token.GTR
+	case token.GTR:
+		return token.LSS
+	case token.LEQ:
+		return token.GEQ
+	case token.GEQ:
+		return token.LEQ
+	}
+	return op
+}
+
+func negTok(op token.Token) token.Token {
+	switch op {
+	case token.LSS:
+		return token.GEQ
+	case token.GTR:
+		return token.LEQ
+	case token.LEQ:
+		return token.GTR
+	case token.GEQ:
+		return token.LSS
+	case token.EQL:
+		return token.NEQ
+	case token.NEQ:
+		return token.EQL
+	}
+	return op
 }
